@@ -61,6 +61,10 @@ def _build(base, parents, name="proj"):
     triggers.write_project(d, names=set(FILES), subdir="app")
     # a source file directly in the project directory (the walk root), next to the sub-directory
     (d / "top_level.py").write_text(triggers.T["magic.py"][3].replace("3975", "4409"))
+    # a duplicated block that is suppressed by inline directives in one of its two files
+    blk = "    total = compute_total(order, region)\n    audit_log.append(order.identifier)\n    discount = lookup_discount(customer, total)\n    invoice = build_invoice(total, discount)\n"
+    (d / "app" / "billing_a.py").write_text("def bill_a(order, customer, region, audit_log):\n    # thailint: ignore-start dry\n" + blk + "    # thailint: ignore-end\n    return invoice\n")
+    (d / "app" / "billing_b.py").write_text("def bill_b(order, customer, region, audit_log):\n" + blk + "    return invoice\n")
     # ignore rules that are written relative to the project: a repository-level list and a per-linter list
     (d / ".thailintignore").write_text("app/skipped_magic.py\ntop_skipped.py\n")
     (d / "app" / "skipped_magic.py").write_text(triggers.T["magic.py"][3].replace("3975", "5501"))
